@@ -1203,8 +1203,7 @@ func (ctx Ctx) exprSpecial(e ast.Expr, isSpecial bool) coq.Expr {
 	case *ast.StarExpr:
 		return ctx.derefExpr(e.X)
 	case *ast.TypeAssertExpr:
-		// TODO: do something with the type
-		return ctx.expr(e.X)
+		ctx.unsupported(e, "type assertion")
 	case *ast.FuncLit:
 		return ctx.funcLit(e)
 	default:
